@@ -169,8 +169,6 @@ def run_hypothesis(
         last = {}
 
         def body(case):
-            nt, labels = classify(case) if classify else (True, ())
-            result.note_case(to_json(case), nt, labels, sample_cap)
             try:
                 ds = oracle(case)
             except HarnessError:
@@ -179,6 +177,9 @@ def run_hypothesis(
                 raise
             except Exception as exc:  # crash of code under test (or of the oracle on its output)
                 ds = [exception_discrepancy(prop, exc)]
+            # classification after the oracle so that it may reuse what the oracle computed
+            nt, labels = classify(case) if classify else (True, ())
+            result.note_case(to_json(case), nt, labels, sample_cap)
             fresh = []
             for d in ds:
                 if d.sig in known:
@@ -382,6 +383,7 @@ def main(argv=None) -> int:
         outs = pool.imap_unordered(_worker, work, chunksize=1)
     shard_times = []
     per_kind = {}
+    exhaustive_kinds = set()
     for status, spec, res, dt in outs:
         shard_times.append(round(dt, 2))
         if status != "ok":
@@ -404,6 +406,8 @@ def main(argv=None) -> int:
             agg.extra[k] = agg.extra.get(k, 0) + v
         if res.exhaustive is not None:
             exhaustive_flags.append(res.exhaustive)
+            if res.exhaustive:
+                exhaustive_kinds.add(kind)
     if jobs > 1:
         pool.close()
         pool.join()
@@ -453,6 +457,8 @@ def main(argv=None) -> int:
     cov.update({k: v for k, v in agg.extra.items()})
     if exhaustive_flags:
         cov["exhaustive"] = all(exhaustive_flags)
+        if exhaustive_kinds and not all(exhaustive_flags):
+            cov["exhaustive_subdomains"] = sorted(exhaustive_kinds)
     if agg.notes:
         cov["notes"] = sorted(set(agg.notes))[:20]
     if hasattr(mod, "coverage_extra"):
